@@ -19,7 +19,7 @@ func blocksOf(c *Ctx, op Op, parts [][]byte, trees []*MNode, full []byte) ([][]b
 		n = len(trees)
 	}
 	for i := 0; i < n; i++ {
-		env := &Env{Reader: noReaderFault, Writer: noWriterFault, Cb: noCbFault}
+		env := &Env{Reader: noReaderFault, Writer: noWriterFault, Cb: noCbFault, MapSeed: mix(c.Seed, 0x626c6b00+uint64(i))}
 		if op.FromRoot {
 			env.Tree = trees[i]
 		} else {
